@@ -23,7 +23,7 @@ static int g_prog[2][MAXOPS], g_nops[2], g_pc[2], g_finalJoin, g_threads, g_queu
 static int g_caching, g_maxops, g_maxthreads, g_spurious, g_unlockpt;
 static long g_blocked_waits;
 
-static void job_fn(void* a) {
+VX_HARNESS_SHARED static void job_fn(void* a) {
     jobarg_t* j = (jobarg_t*)a;
     if (++g_exec[j->id] > 1) { vx_fail("job executed more than once"); }
     if (g_acc[j->id] == 0) vx_fail("job ran although its post was refused");
@@ -31,13 +31,13 @@ static void job_fn(void* a) {
     g_done[j->id] = 1;
 }
 
-static int new_job(int posting) {
+VX_HARNESS_SHARED static int new_job(int posting) {
     int id = g_nj++; g_job[id].id = id; g_job[id].posting = posting; g_job[id].child = -1;
     if (posting) { int c = g_nj++; g_job[c].id = c; g_job[c].posting = 0; g_job[c].child = -1; g_job[id].child = c; }
     return id;
 }
 
-static void run_client(int who) {
+VX_HARNESS_SHARED static void run_client(int who) {
     for (g_pc[who] = 0; g_pc[who] < g_nops[who]; g_pc[who]++) {
         int op = g_prog[who][g_pc[who]];
         switch (op) {
@@ -53,7 +53,7 @@ static void run_client(int who) {
     }
     g_pc[who] = 99;
 }
-static void* client_thread(void* a) { (void)a; run_client(1); return NULL; }
+VX_HARNESS_SHARED static void* client_thread(void* a) { (void)a; run_client(1); return NULL; }
 
 static int cb_pick(int n, int kind) { return vx_pick(n, kind == 2 ? VX_PREEMPT : VX_DEV); }
 static void cb_fail(const char* what) { vx_fail("%s", what); vx_abort_exec(); }
@@ -81,7 +81,7 @@ static void init(void) {
     g_spurious = (int)vx_opt_int("--spurious", 0); g_unlockpt = (int)vx_opt_int("--unlockpt", 0);
 }
 
-static void body(void) {
+VX_HARNESS_SHARED static void body(void) {
     memset(g_exec, 0, sizeof g_exec); memset(g_acc, 0, sizeof g_acc); memset(g_done, 0, sizeof g_done); g_nj = 0; g_pool = NULL;
     /* ---- the client program (free choices, all made before any thread starts) ---- */
     g_threads = 1 + vx_choose(g_maxthreads); g_queue = vx_choose(3);
